@@ -9,6 +9,7 @@ import (
 	"fmt"
 	"reflect"
 	"sort"
+	"strconv"
 	"strings"
 
 	configapi "github.com/onosproject/onos-api/go/onos/config/v2"
@@ -201,9 +202,10 @@ func handleLeafValue(nodemap map[string]interface{}, value *configapi.TypedValue
 		}
 	case configapi.ValueType_DECIMAL:
 		if jsonRFC7951 {
-			(nodemap)[pathelems[0]] = (*configapi.TypedDecimal)(value).String()
+			(nodemap)[pathelems[0]] = decimal64String((*configapi.TypedDecimal)(value).Decimal64())
 		} else {
-			(nodemap)[pathelems[0]] = (*configapi.TypedDecimal)(value).Float()
+			floatVal, _ := strconv.ParseFloat(decimal64String((*configapi.TypedDecimal)(value).Decimal64()), 64)
+			(nodemap)[pathelems[0]] = floatVal
 		}
 	case configapi.ValueType_FLOAT:
 		if jsonRFC7951 {
@@ -242,7 +244,16 @@ func handleLeafValue(nodemap map[string]interface{}, value *configapi.TypedValue
 	case configapi.ValueType_LEAFLIST_BOOL:
 		(nodemap)[pathelems[0]] = (*configapi.TypedLeafListBool)(value).List()
 	case configapi.ValueType_LEAFLIST_DECIMAL:
-		(nodemap)[pathelems[0]] = (*configapi.TypedLeafListDecimal)(value).ListFloat()
+		if jsonRFC7951 {
+			digits, precision := (*configapi.TypedLeafListDecimal)(value).List()
+			asStrList := make([]string, 0, len(digits))
+			for _, d := range digits {
+				asStrList = append(asStrList, decimal64String(d, precision))
+			}
+			(nodemap)[pathelems[0]] = asStrList
+		} else {
+			(nodemap)[pathelems[0]] = (*configapi.TypedLeafListDecimal)(value).ListFloat()
+		}
 	case configapi.ValueType_LEAFLIST_FLOAT:
 		(nodemap)[pathelems[0]] = (*configapi.TypedLeafListFloat)(value).List()
 	case configapi.ValueType_LEAFLIST_BYTES:
@@ -251,6 +262,25 @@ func handleLeafValue(nodemap map[string]interface{}, value *configapi.TypedValue
 		(nodemap)[pathelems[0]] = fmt.Sprintf("unexpected %d", value.Type)
 	}
 
+}
+
+// decimal64String renders a decimal64 in the RFC 7950 lexical form, keeping the sign of -1 < x < 0
+func decimal64String(digits int64, precision uint8) string {
+	u := uint64(digits)
+	if digits < 0 {
+		u = -u
+	}
+	s := strconv.FormatUint(u, 10)
+	if precision > 0 {
+		for len(s) <= int(precision) {
+			s = "0" + s
+		}
+		s = s[:len(s)-int(precision)] + "." + s[len(s)-int(precision):]
+	}
+	if digits < 0 {
+		s = "-" + s
+	}
+	return s
 }
 
 // PrunePathValues produces a copy of the given path values list, with paths marked as deleted and their sub-paths removed.
